@@ -32,6 +32,9 @@ pub struct CrashStats {
     errors: Vec<String>,
     complete: bool,
     /// crash points inside the *recovery* reorg (a second crash), and second recoveries checked
+    /// the first level (pass 0) was cut short by the budget or the violation cap
+    #[serde(default)]
+    first_level_incomplete: bool,
     #[serde(default)]
     second_crash_points: u64,
     #[serde(default)]
@@ -174,6 +177,7 @@ pub fn worker(tier: &str, shard: u64, nshards: u64, budget_s: f64) -> CrashStats
         for (vname, vpre, victim) in victims(thorough) {
             if Instant::now() > deadline {
                 st.complete = false;
+                st.first_level_incomplete |= pass == 0;
                 break 'hist;
             }
             // second-crash layer: every history in the thorough tier; in the quick tier the histories of
@@ -258,6 +262,7 @@ pub fn worker(tier: &str, shard: u64, nshards: u64, budget_s: f64) -> CrashStats
                 }
                 if Instant::now() > deadline {
                     st.complete = false;
+                    st.first_level_incomplete |= pass == 0;
                     break 'hist;
                 }
                 let site = if (i as usize) < sites.len() { sites[i as usize] } else { "after-the-last-write" };
@@ -353,6 +358,7 @@ pub fn worker(tier: &str, shard: u64, nshards: u64, budget_s: f64) -> CrashStats
                                 }
                                 if Instant::now() > deadline {
                                     st.complete = false;
+                                    st.first_level_incomplete |= pass == 0;
                                     break;
                                 }
                                 let d2 = fresh_dir();
@@ -423,6 +429,7 @@ pub fn worker(tier: &str, shard: u64, nshards: u64, budget_s: f64) -> CrashStats
                 let _ = std::fs::remove_dir_all(&dir);
                 if st.violations.len() >= 30 {
                     st.complete = false;
+                    st.first_level_incomplete |= pass == 0;
                     break 'hist;
                 }
             }
@@ -454,6 +461,7 @@ pub fn run(tier: &str, seed: u64) -> i32 {
                 total.cases += st.cases;
                 total.recoveries += st.recoveries;
                 total.lost_only_uncommitted += st.lost_only_uncommitted;
+                total.first_level_incomplete |= st.first_level_incomplete;
                 total.second_crash_points += st.second_crash_points;
                 total.second_recoveries += st.second_recoveries;
                 for (k, v) in st.reopened_heights {
@@ -483,13 +491,13 @@ pub fn run(tier: &str, seed: u64) -> i32 {
         "non_commit_victims_lost_only_uncommitted": total.lost_only_uncommitted,
         "second_crash": {"rule": "for every first crash point of ([C], victim C) and ([C], victim finalise) (quick — a smoke-level sub-bound: one case costs two re-opens of 28 RocksDB instances; first recovery height, second recovery to the same height) / of every history and victim (thorough; every recovery height, second recovery to the same and to the lowest eligible height, plus one more block): a second crash in front of every persistent write of the recovery reorg, reopen, reorg again", "crash_points_inside_recovery": total.second_crash_points, "recovered_after_second_crash": total.second_recoveries},
         "heights_at_reopen": total.reopened_heights, "crash_sites": total.sites, "victims": total.victims,
-        "exhaustive": total.complete, "machinery_errors": errors,
+        "exhaustive": total.complete, "first_level_exhaustive": !total.first_level_incomplete, "machinery_errors": errors,
     });
     ev.assumptions = vec!["crash model of the statement: the process dies between two RocksDB calls; RocksDB's WAL makes exactly the completed writes visible on reopen; torn or unsynced writes after power loss are outside the property".into()];
     ev.violations = new.len() as i64;
     ev.wall_s = t0.elapsed().as_secs_f64();
     ev.write();
-    println!("C04 {}: histories={} (skipped {}), crash points={}, cases={}, recovered={}, second crash points={} recovered={}, complete={}, wall={:.1}s", tier, total.histories, total.histories_skipped, total.crash_points, total.cases, total.recoveries, total.second_crash_points, total.second_recoveries, total.complete, ev.wall_s);
+    println!("C04 {}: histories={} (skipped {}), crash points={}, cases={}, recovered={}, second crash points={} recovered={}, first level complete={}, complete={}, wall={:.1}s", tier, total.histories, total.histories_skipped, total.crash_points, total.cases, total.recoveries, total.second_crash_points, total.second_recoveries, !total.first_level_incomplete, total.complete, ev.wall_s);
     crate::inst::cleanup_scratch();
     let mut seen = std::collections::BTreeSet::new();
     for (id, _) in &known {
